@@ -679,6 +679,1089 @@ theorem testRules_same_view (cfg cfg' : Cfg) (hchain : cfg'.chain = cfg.chain) (
     exact runChain_same_view (fun r s b s' h => silent_pure_rule h) (fun r s b s' h => silent_pure_rule h)
       (fun r => silent_same_view_rule h r) _
 
+/-! ## the block-quote congruence: a simulation between the run on `D` and the nested run on `"> "`-prefixed `D` -/
+
+/-- the lines of a document with their terminators (`Lines.linesT`) -/
+abbrev DLines := List (List Char × List Char)
+
+/-- `"> "` in front of every line -/
+def prefixLines (L : DLines) : DLines := L.map fun lt => ('>' :: ' ' :: lt.1, lt.2)
+
+/-- byte offset at which line `i` starts -/
+def startOf (L : DLines) (i : Nat) : Nat := Lines.byteLen (Lines.flat (L.take i))
+
+theorem startOf_zero (L : DLines) : startOf L 0 = 0 := by simp [startOf]
+
+theorem startOf_succ (L : DLines) (i : Nat) (h : i < L.length) :
+    startOf L (i + 1) = startOf L i + Lines.byteLen L[i].1 + Lines.byteLen L[i].2 := by
+  unfold startOf
+  rw [List.take_succ, List.getElem?_eq_getElem h]
+  simp only [Option.toList_some, Lines.flat_append, Lines.flat_cons, Lines.flat_nil, Lines.byteLen_append,
+    List.append_nil]
+  omega
+
+theorem prefixLines_length (L : DLines) : (prefixLines L).length = L.length := by simp [prefixLines]
+
+theorem byteLen_gt_sp (l : List Char) : Lines.byteLen ('>' :: ' ' :: l) = 2 + Lines.byteLen l := by
+  simp [show '>'.utf8Size = 1 by decide, show ' '.utf8Size = 1 by decide]; omega
+
+theorem startOf_prefix (L : DLines) : ∀ i, i ≤ L.length → startOf (prefixLines L) i = startOf L i + 2 * i := by
+  intro i
+  induction i with
+  | zero => intro _; simp [startOf_zero]
+  | succ i ih =>
+    intro h
+    have hi : i < L.length := by omega
+    rw [startOf_succ _ _ (by rw [prefixLines_length]; exact hi), startOf_succ _ _ hi, ih (by omega)]
+    simp only [prefixLines, List.getElem_map, byteLen_gt_sp]
+    omega
+
+/-- the source splits at line `i` -/
+theorem flat_split (L : DLines) (i : Nat) (h : i < L.length) :
+    Lines.flat L = Lines.flat (L.take i) ++ L[i].1 ++ (L[i].2 ++ Lines.flat (L.drop (i + 1))) := by
+  conv => lhs; rw [← List.take_append_drop i L]
+  rw [List.drop_eq_getElem_cons h]
+  simp only [Lines.flat_append, Lines.flat_cons, List.append_assoc]
+
+/-- a slice inside line `i` -/
+theorem slice_in_line (L : DLines) (i : Nat) (h : i < L.length) (a b c : List Char) (hl : L[i].1 = a ++ b ++ c) :
+    Lines.slice (Lines.flat L) (startOf L i + Lines.byteLen a) (startOf L i + Lines.byteLen a + Lines.byteLen b)
+      = .ok b := by
+  refine Lines.slice_eq_ok_iff.mpr ⟨Lines.flat (L.take i) ++ a, c ++ (L[i].2 ++ Lines.flat (L.drop (i + 1))), ?_, ?_, rfl⟩
+  · rw [flat_split L i h, hl]; simp [List.append_assoc]
+  · simp [startOf]
+
+/-- what the lines of a document (`Lines.linesT`) satisfy, plus tab-freeness -/
+structure LinesOk (L : DLines) : Prop where
+  noTerm : ∀ lt ∈ L, NoTerm lt.1
+  tabfree : ∀ lt ∈ L, '\t' ∉ lt.1
+  term : ∀ i (h : i + 1 < L.length), 1 ≤ Lines.byteLen (L[i]'(by omega)).2
+  /-- the model's `i32` / `usize` casts are exact below 2³¹ bytes -/
+  size : Lines.byteLen (Lines.flat L) + 8 < 2147483648
+
+/-- where byte `p` of the document lands in the prefixed document: `2 (i + 1)` further, `i` the line
+    it belongs to (a line owns the bytes from its start up to and including the position of its end) -/
+def sigmaGo : DLines → Nat → Nat → Nat
+  | [], _, p => p
+  | lt :: r, start, p =>
+    if p ≤ start + Lines.byteLen lt.1 then p + 2
+    else 2 + sigmaGo r (start + Lines.byteLen lt.1 + Lines.byteLen lt.2) p
+
+def sigma (L : DLines) (p : Nat) : Nat := sigmaGo L 0 p
+
+theorem sigmaGo_in_line : ∀ (L : DLines) (start : Nat) (i : Nat) (h : i < L.length) (x : Nat),
+    (∀ j (hj : j + 1 < L.length), 1 ≤ Lines.byteLen (L[j]'(by omega)).2) → x ≤ Lines.byteLen L[i].1 →
+    sigmaGo L start (start + startOf L i + x) = start + startOf L i + 2 * i + 2 + x
+  | [], _, i, h, _, _, _ => by simp at h
+  | lt :: r, start, 0, _, x, _, hx => by
+    simp only [sigmaGo, startOf_zero, List.getElem_cons_zero] at hx ⊢
+    rw [if_pos (by omega)]
+    omega
+  | lt :: r, start, i + 1, h, x, ht, hx => by
+    have hi : i < r.length := by simpa using h
+    have h1 := ht 0 (by simp; omega)
+    simp only [List.getElem_cons_zero] at h1
+    have hs : startOf (lt :: r) (i + 1) = Lines.byteLen lt.1 + Lines.byteLen lt.2 + startOf r i := by
+      simp [startOf, Lines.flat, Nat.add_assoc]
+    simp only [sigmaGo, hs, List.getElem_cons_succ] at hx ⊢
+    rw [if_neg (by omega)]
+    have := sigmaGo_in_line r (start + Lines.byteLen lt.1 + Lines.byteLen lt.2) i hi x
+      (fun j hj => by have := ht (j + 1) (by simp; omega); simpa using this) hx
+    rw [show start + (Lines.byteLen lt.1 + Lines.byteLen lt.2 + startOf r i) + x
+        = start + Lines.byteLen lt.1 + Lines.byteLen lt.2 + startOf r i + x by omega, this]
+    omega
+
+theorem sigma_in_line {L : DLines} (hL : LinesOk L) {i : Nat} (h : i < L.length) {x : Nat}
+    (hx : x ≤ Lines.byteLen L[i].1) : sigma L (startOf L i + x) = startOf L i + 2 * i + 2 + x := by
+  have := sigmaGo_in_line L 0 i h x hL.term hx
+  simpa [sigma] using this
+
+/-! ### entries and tables -/
+
+/-- the entry of line `i` in the nested run on the prefixed document, from the entry `o` of the run
+    on `D`: line `i` starts `2 i` bytes later, its text and its end `2 i + 2` bytes later -/
+def shiftEntry (i : Nat) (o : LineOffset) : LineOffset :=
+  ⟨o.lineStart + 2 * i, o.lineEnd + 2 * i + 2, o.firstNonspace + 2 * i + 2, o.indentNonspace⟩
+
+/-- entry `i` of the run on `D` cuts line `i` into `a ++ b` at `first_nonspace`, and its indent does
+    not exceed the number of characters in front of the cut -/
+def EntryOk (L : DLines) (i : Nat) (o : LineOffset) : Prop :=
+  ∃ l t a b, L[i]? = some (l, t) ∧ l = a ++ b ∧ o.lineStart = startOf L i ∧
+    o.firstNonspace = startOf L i + Lines.byteLen a ∧
+    o.lineEnd = startOf L i + Lines.byteLen a + Lines.byteLen b ∧ o.indentNonspace ≤ (a.length : Int)
+
+/-- the two tables -/
+structure QRel (L : DLines) (offs offs' : List LineOffset) : Prop where
+  len : offs.length = L.length
+  ok : ∀ (i : Nat) (o : LineOffset), offs[i]? = some o → EntryOk L i o
+  shift : ∀ i : Nat, offs'[i]? = (offs[i]?).map (shiftEntry i)
+
+theorem QRel.len' {L : DLines} {offs offs' : List LineOffset} (q : QRel L offs offs') : offs'.length = L.length := by
+  have h1 := q.shift offs.length
+  have h2 := q.shift (offs.length - 1)
+  rw [← q.len]
+  by_cases h : offs'.length ≤ offs.length
+  · by_cases h0 : offs.length = 0
+    · simp [h0] at h ⊢; exact h
+    · have : offs.length - 1 < offs.length := by omega
+      rw [List.getElem?_eq_getElem this] at h2
+      simp at h2
+      have := (List.getElem?_eq_some_iff.mp h2).1
+      omega
+  · have : offs.length < offs'.length := by omega
+    rw [List.getElem?_eq_getElem this] at h1
+    simp at h1
+
+/-- the two states share a table relation: sources, tables, block indent -/
+structure Tbl (L : DLines) (s s' : BState) : Prop where
+  lines : LinesOk L
+  src : s.src = Lines.flat L
+  src' : s'.src = Lines.flat (prefixLines L)
+  q : QRel L s.offs s'.offs
+  blk : s'.blkIndent = s.blkIndent
+  small : s.blkIndent ≤ Lines.byteLen (Lines.flat L) + 1
+
+section accessors
+variable {L : DLines} {s s' : BState}
+
+theorem Tbl.off (T : Tbl L s s') (n : Nat) : s'.off n = Except.map (shiftEntry n) (s.off n) := by
+  simp only [BState.off, T.q.shift n]
+  cases s.offs[n]? <;> rfl
+
+theorem Tbl.lineIndent (T : Tbl L s s') (n : Nat) : s'.lineIndent n = s.lineIndent n := by
+  simp only [BState.lineIndent, Lines.lineIndent, T.q.shift n, T.blk]
+  cases s.offs[n]? <;> rfl
+
+theorem Tbl.isEmpty (T : Tbl L s s') (n : Nat) : s'.isEmpty n = s.isEmpty n := by
+  simp only [BState.isEmpty, Lines.isEmpty, T.q.shift n]
+  cases s.offs[n]? with
+  | none => rfl
+  | some o => simp [shiftEntry]
+
+/-- the text of line `i` behind the cut, read from either source -/
+theorem entry_text (hL : LinesOk L) {i : Nat} {o : LineOffset} (h : EntryOk L i o) :
+    ∃ b, Lines.slice (Lines.flat L) o.firstNonspace o.lineEnd = .ok b ∧
+      Lines.slice (Lines.flat (prefixLines L)) (shiftEntry i o).firstNonspace (shiftEntry i o).lineEnd = .ok b := by
+  obtain ⟨l, t, a, b, hi, hl, hs, hf, he, _⟩ := h
+  have hlt : i < L.length := (List.getElem?_eq_some_iff.mp hi).1
+  have hLi : L[i] = (l, t) := (List.getElem?_eq_some_iff.mp hi).2
+  refine ⟨b, ?_, ?_⟩
+  · rw [hf, he]
+    exact slice_in_line L i hlt a b [] (by rw [hLi, hl]; simp)
+  · have hlt' : i < (prefixLines L).length := by rw [prefixLines_length]; exact hlt
+    have := slice_in_line (prefixLines L) i hlt' ('>' :: ' ' :: a) b []
+      (by simp [prefixLines, hLi, hl])
+    rw [startOf_prefix L i (by omega), byteLen_gt_sp] at this
+    simp only [shiftEntry, hf, he]
+    rw [← this]
+    congr 1 <;> omega
+
+theorem Tbl.getLine (T : Tbl L s s') (n : Nat) : s'.getLine n = s.getLine n := by
+  simp only [BState.getLine, Lines.getLine, T.q.shift n, T.src, T.src']
+  cases h : s.offs[n]? with
+  | none => rfl
+  | some o =>
+    obtain ⟨b, h1, h2⟩ := entry_text T.lines (T.q.ok n o h)
+    simp [h1, h2]
+end accessors
+
+/-- `calc_right_whitespace_with_tabstops` on a tab-free tail `w`: asking for `k ≤ |w|` columns cuts
+    `k` characters before the end, whatever precedes `w` -/
+theorem calcRight_tabfree (a w : List Char) (hw : '\t' ∉ w) (k : Int) (hk : k ≤ w.length) :
+    Lines.calcRightWs (a ++ w) k = (0, Lines.byteLen a + Lines.byteLen (w.take (w.length - k.toNat))) := by
+  by_cases h0 : k ≤ 0
+  · rw [Lines.cut_zero _ _ h0]
+    have : k.toNat = 0 := by omega
+    simp [this]
+  · have hkn : k.toNat ≤ w.length := by omega
+    have hsplit : w = w.take (w.length - k.toNat) ++ w.drop (w.length - k.toNat) := (List.take_append_drop _ _).symm
+    have hw2 : '\t' ∉ w.drop (w.length - k.toNat) := fun hc => hw ((List.drop_sublist _ _).subset hc)
+    have hcut := Lines.cut_prefix (a ++ w.take (w.length - k.toNat)) (w.drop (w.length - k.toNat))
+    rw [Lines.indentWidth_append, widthFrom_tabfree _ _ hw2] at hcut
+    have hlen : (w.drop (w.length - k.toNat)).length = k.toNat := by simp; omega
+    rw [hlen] at hcut
+    have e : (((Lines.indentWidth (a ++ w.take (w.length - k.toNat)) + k.toNat : Nat) : Int)
+        - (Lines.indentWidth (a ++ w.take (w.length - k.toNat)) : Int)) = k := by omega
+    rw [e, List.append_assoc, ← hsplit] at hcut
+    rw [hcut]
+    simp
+
+section accessors2
+variable {L : DLines} {s s' : BState}
+
+/-- a byte of line `i` (between the entry's `line_start` and `line_end`) moves by `2 i + 2` -/
+theorem sigma_of_entry (hL : LinesOk L) {i : Nat} {o : LineOffset} (h : EntryOk L i o) {p : Nat}
+    (h1 : o.lineStart ≤ p) (h2 : p ≤ o.lineEnd) : sigma L p = p + 2 * i + 2 := by
+  obtain ⟨l, t, a, b, hi, hl, hs, hf, he, _⟩ := h
+  have hlt : i < L.length := (List.getElem?_eq_some_iff.mp hi).1
+  have hLi : L[i] = (l, t) := (List.getElem?_eq_some_iff.mp hi).2
+  have hx : p - startOf L i ≤ Lines.byteLen L[i].1 := by
+    rw [hLi, hl]; simp; omega
+  have := sigma_in_line hL hlt hx
+  rw [show startOf L i + (p - startOf L i) = p by omega] at this
+  rw [this]; omega
+
+theorem entry_bounds {i : Nat} {o : LineOffset} (h : EntryOk L i o) :
+    o.lineStart ≤ o.firstNonspace ∧ o.firstNonspace ≤ o.lineEnd := by
+  obtain ⟨l, t, a, b, hi, hl, hs, hf, he, _⟩ := h
+  omega
+
+/-- positions pair of a range -/
+def sigma2 (L : DLines) (r : Nat × Nat) : Nat × Nat := (sigma L r.1, sigma L r.2)
+
+theorem Tbl.getMap (T : Tbl L s s') (a b : Nat) :
+    s'.getMap a b = Except.map (sigma2 L) (s.getMap a b) := by
+  simp only [BState.getMap, Lines.getMap, T.q.shift a, T.q.shift b]
+  split
+  · rfl
+  · cases ha : s.offs[a]? with
+    | none => rfl
+    | some oa =>
+      cases hb : s.offs[b]? with
+      | none => rfl
+      | some ob =>
+        have ea := T.q.ok a oa ha
+        have eb := T.q.ok b ob hb
+        have ba := entry_bounds ea
+        have bb := entry_bounds eb
+        simp only [Option.map_some, liftL, Except.map, sigma2, shiftEntry]
+        rw [sigma_of_entry T.lines ea ba.1 ba.2, sigma_of_entry T.lines eb (by omega) (Nat.le_refl _)]
+end accessors2
+
+/-- the mapping `get_lines` returns, relocated -/
+def mapSigma (L : DLines) (m : List (Nat × Nat)) : List (Nat × Nat) := m.map fun kv => (kv.1, sigma L kv.2)
+
+section getlines
+variable {L : DLines} {s s' : BState}
+
+theorem getLinesGo_sim (T : Tbl L s s') (end_ indent : Nat) (keep : Bool)
+    (hi : 0 ≤ Lines.usizeAsI32 indent) :
+    ∀ (n line : Nat) (result : List Char) (m : List (Nat × Nat)), end_ - line = n →
+      Lines.getLinesGo s'.src s'.offs end_ indent keep line result (mapSigma L m)
+        = Except.map (fun r => (r.1, mapSigma L r.2))
+            (Lines.getLinesGo s.src s.offs end_ indent keep line result m) := by
+  intro n
+  induction n with
+  | zero =>
+    intro line result m hn
+    rw [Lines.getLinesGo, Lines.getLinesGo, if_neg (by omega), if_neg (by omega)]
+    rfl
+  | succ n ih =>
+    intro line result m hn
+    rw [Lines.getLinesGo, Lines.getLinesGo, if_pos (by omega), if_pos (by omega), T.q.shift line]
+    cases ho : s.offs[line]? with
+    | none => rfl
+    | some o =>
+      have eo := T.q.ok line o ho
+      obtain ⟨l, t, a, b, hLi, hl, hs, hf, he, hind⟩ := eo
+      have hlt : line < L.length := (List.getElem?_eq_some_iff.mp hLi).1
+      have hLe : L[line] = (l, t) := (List.getElem?_eq_some_iff.mp hLi).2
+      have hlt' : line < (prefixLines L).length := by rw [prefixLines_length]; exact hlt
+      have hLe' : (prefixLines L)[line].1 = '>' :: ' ' :: (a ++ b) := by simp [prefixLines, hLe, hl]
+      have htab : '\t' ∉ a := by
+        intro hc
+        exact T.lines.tabfree (l, t) (by rw [← hLe]; exact List.getElem_mem hlt) (by rw [hl]; simp [hc])
+      have hst' := startOf_prefix L line (by omega)
+      -- the blanks
+      have hws : Lines.slice (Lines.flat L) o.lineStart o.firstNonspace = .ok a := by
+        have := slice_in_line L line hlt [] a b (by rw [hLe, hl]; simp)
+        simpa [hs, hf] using this
+      have hws' : Lines.slice (Lines.flat (prefixLines L)) (shiftEntry line o).lineStart
+          (shiftEntry line o).firstNonspace = .ok ('>' :: ' ' :: a) := by
+        have := slice_in_line (prefixLines L) line hlt' [] ('>' :: ' ' :: a) b (by rw [hLe']; simp)
+        rw [hst', byteLen_gt_sp] at this
+        simp only [Lines.byteLen_nil, Nat.add_zero] at this
+        simp only [shiftEntry, hs, hf]
+        rw [← this]; congr 1; omega
+      -- the cut
+      have hk : o.indentNonspace - Lines.usizeAsI32 indent ≤ (a.length : Int) := by omega
+      obtain ⟨j, hj⟩ : ∃ j, j = a.length - (o.indentNonspace - Lines.usizeAsI32 indent).toNat := ⟨_, rfl⟩
+      have hc := calcRight_tabfree [] a htab _ hk
+      have hc' := calcRight_tabfree ['>', ' '] a htab _ hk
+      simp only [List.nil_append, Lines.byteLen_nil, Nat.zero_add, ← hj] at hc
+      simp only [← hj, show Lines.byteLen ['>', ' '] = 2 by decide] at hc'
+      have hsplit : a = a.take j ++ a.drop j := (List.take_append_drop _ _).symm
+      -- the text copied
+      have htx : Lines.slice (Lines.flat L) (o.lineStart + Lines.byteLen (a.take j)) o.lineEnd
+          = .ok (a.drop j ++ b) := by
+        have := slice_in_line L line hlt (a.take j) (a.drop j ++ b) []
+          (by rw [hLe, hl]; simp [← List.append_assoc, ← hsplit])
+        rw [← this, hs, he]
+        have := congrArg Lines.byteLen hsplit
+        simp only [Lines.byteLen_append] at this ⊢
+        congr 1; omega
+      have htx' : Lines.slice (Lines.flat (prefixLines L))
+          ((shiftEntry line o).lineStart + (2 + Lines.byteLen (a.take j))) (shiftEntry line o).lineEnd
+          = .ok (a.drop j ++ b) := by
+        have := slice_in_line (prefixLines L) line hlt' ('>' :: ' ' :: a.take j) (a.drop j ++ b) []
+          (by rw [hLe']; simp [← List.append_assoc, ← hsplit])
+        rw [← this, hst', byteLen_gt_sp]
+        simp only [shiftEntry, hs, he]
+        have := congrArg Lines.byteLen hsplit
+        simp only [Lines.byteLen_append] at this ⊢
+        congr 1 <;> omega
+      -- the mapping entry
+      have hsig : sigma L (o.lineStart + Lines.byteLen (a.take j))
+          = (shiftEntry line o).lineStart + (2 + Lines.byteLen (a.take j)) := by
+        have hb : Lines.byteLen (a.take j) ≤ Lines.byteLen a := by
+          have := congrArg Lines.byteLen hsplit
+          simp only [Lines.byteLen_append] at this; omega
+        rw [sigma_of_entry T.lines ⟨l, t, a, b, hLi, hl, hs, hf, he, hind⟩ (by omega) (by omega)]
+        simp only [shiftEntry]; omega
+      simp only [Option.map_some, T.src, T.src', hws, hws', List.cons_append, List.nil_append] at hc' ⊢
+      have hind' : (shiftEntry line o).indentNonspace = o.indentNonspace := rfl
+      simp only [hind', hc, hc', List.replicate_zero, List.append_nil, show ¬ (0 > 0) by omega, if_false, htx, htx']
+      have := ih (line + 1)
+        (if (decide (line + 1 < end_) || keep) = true then result ++ (a.drop j ++ b) ++ ['\n']
+          else result ++ (a.drop j ++ b))
+        (m ++ [(Lines.byteLen result, o.lineStart + Lines.byteLen (a.take j))]) (by omega)
+      simp only [mapSigma, List.map_append, List.map_cons, List.map_nil, hsig, T.src, T.src'] at this ⊢
+      exact this
+
+theorem Tbl.getLines (T : Tbl L s s') (b e indent : Nat) (keep : Bool) (hi : 0 ≤ Lines.usizeAsI32 indent) :
+    s'.getLines b e indent keep
+      = Except.map (fun r => (r.1, mapSigma L r.2)) (s.getLines b e indent keep) := by
+  simp only [BState.getLines, Lines.getLines]
+  split
+  · rfl
+  · have := getLinesGo_sim T e indent keep hi (e - b) b [] [] rfl
+    simp only [mapSigma, List.map_nil] at this
+    rw [this]
+    cases Lines.getLinesGo s.src s.offs e indent keep b [] [] with
+    | error er => cases er <;> rfl
+    | ok v => rfl
+end getlines
+
+/-! ### relocation of trees, the simulation relation -/
+
+def relocKind (σ : Nat → Nat) : Kind → Kind
+  | .inlineRoot c m => .inlineRoot c (m.map fun kv => (kv.1, σ kv.2))
+  | k => k
+
+mutual
+/-- every range and every mapping target of the tree through `σ` -/
+def relocNode (σ : Nat → Nat) : BNode → BNode
+  | ⟨k, r, cs⟩ => ⟨relocKind σ k, r.map fun p => (σ p.1, σ p.2), relocNodes σ cs⟩
+def relocNodes (σ : Nat → Nat) : List BNode → List BNode
+  | [] => []
+  | n :: r => relocNode σ n :: relocNodes σ r
+end
+
+theorem relocNodes_append (σ : Nat → Nat) (a b : List BNode) :
+    relocNodes σ (a ++ b) = relocNodes σ a ++ relocNodes σ b := by
+  induction a with
+  | nil => rfl
+  | cons n r ih => simp [relocNodes, ih]
+
+theorem relocNodes_eq_map (σ : Nat → Nat) (cs : List BNode) : relocNodes σ cs = cs.map (relocNode σ) := by
+  induction cs with
+  | nil => rfl
+  | cons n r ih => simp [relocNodes, ih]
+
+theorem relocNode_kind (σ : Nat → Nat) (n : BNode) : (relocNode σ n).kind = relocKind σ n.kind := by
+  cases n; rfl
+
+/-- the run on `D` (state `s`) and the nested run on the prefixed document (state `s'`) -/
+structure Sim (L : DLines) (s s' : BState) : Prop where
+  tbl : Tbl L s s'
+  line : s'.line = s.line
+  lineMax : s'.lineMax = s.lineMax
+  tight : s'.tight = s.tight
+  listIndent : s'.listIndent = s.listIndent
+  level : s'.level = s.level + 1
+  nodeKind : s'.nodeKind = s.nodeKind
+  children : s'.children = relocNodes (sigma L) s.children
+  refs : s'.refs = s.refs
+
+theorem usizeAsI32_small {n : Nat} (h : n < 2147483648) : Lines.usizeAsI32 n = (n : Int) := by
+  simp [Lines.usizeAsI32]; omega
+
+section simbasics
+variable {L : DLines} {s s' : BState}
+
+theorem Tbl.indent_ok (T : Tbl L s s') (d : Nat) (hd : d ≤ 4) : 0 ≤ Lines.usizeAsI32 (d + s.blkIndent) := by
+  have := T.small
+  have := T.lines.size
+  rw [usizeAsI32_small (by omega)]
+  omega
+
+/-- a table relation does not depend on the other fields -/
+theorem Tbl.of_eq {t t' : BState} (T : Tbl L s s') (h1 : t.src = s.src) (h2 : t.offs = s.offs)
+    (h3 : t.blkIndent = s.blkIndent) (h1' : t'.src = s'.src) (h2' : t'.offs = s'.offs)
+    (h3' : t'.blkIndent = s'.blkIndent) : Tbl L t t' :=
+  ⟨T.lines, by rw [h1, T.src], by rw [h1', T.src'], by rw [h2, h2']; exact T.q, by rw [h3, h3', T.blk],
+   by rw [h3]; exact T.small⟩
+
+/-- pushing related nodes, moving `line` alike -/
+theorem Sim.push_line (S : Sim L s s') (n : BNode) (l : Nat) :
+    Sim L { s.push n with line := l } { s'.push (relocNode (sigma L) n) with line := l } :=
+  ⟨S.tbl.of_eq rfl rfl rfl rfl rfl rfl, rfl, S.lineMax, S.tight, S.listIndent, S.level, S.nodeKind,
+   by simp [BState.push, S.children, relocNodes_append, relocNodes], S.refs⟩
+end simbasics
+
+@[simp] theorem map_ok' {α β : Type} (f : α → β) (a : α) : Except.map f (Except.ok a : Except Panic α) = .ok (f a) := rfl
+
+/-- close `Sim L t t'` where `t`, `t'` are `s`, `s'` with nodes pushed and `line` moved alike -/
+syntax "sim_close " ident : tactic
+macro_rules
+| `(tactic| sim_close $S:ident) => `(tactic|
+    (refine ⟨Tbl.of_eq (Sim.tbl $S) rfl rfl rfl rfl rfl rfl, ?_, ?_, ?_, ?_, ?_, ?_, ?_, ?_⟩ <;>
+      simp [BState.push, Sim.line $S, Sim.lineMax $S, Sim.tight $S, Sim.listIndent $S, Sim.level $S,
+        Sim.nodeKind $S, Sim.children $S, Sim.refs $S, relocNodes_append, relocNodes, relocNode,
+        relocKind, sigma2, mapSigma]))
+
+theorem sigmaGo_ge : ∀ (L : DLines) (start p : Nat), p ≤ sigmaGo L start p
+  | [], _, _ => Nat.le_refl _
+  | lt :: r, start, p => by
+    simp only [sigmaGo]
+    split
+    · omega
+    · have := sigmaGo_ge r (start + Lines.byteLen lt.1 + Lines.byteLen lt.2) p; omega
+
+theorem sigmaGo_mono : ∀ (L : DLines) (start p q : Nat), p ≤ q → sigmaGo L start p ≤ sigmaGo L start q
+  | [], _, _, _, h => h
+  | lt :: r, start, p, q, h => by
+    simp only [sigmaGo]
+    split
+    · split
+      · omega
+      · have := sigmaGo_ge r (start + Lines.byteLen lt.1 + Lines.byteLen lt.2) q; omega
+    · split
+      · omega
+      · have := sigmaGo_mono r (start + Lines.byteLen lt.1 + Lines.byteLen lt.2) p q h; omega
+
+theorem sigma_mono (L : DLines) {p q : Nat} (h : p ≤ q) : sigma L p ≤ sigma L q := sigmaGo_mono L 0 p q h
+
+@[simp] theorem shiftEntry_indent (i : Nat) (o : LineOffset) : (shiftEntry i o).indentNonspace = o.indentNonspace := rfl
+
+/-- re-run the goal (the rule on `s'`) along the path the run on `s` took -/
+syntax "replay_goal" : tactic
+macro_rules
+| `(tactic| replay_goal) => `(tactic|
+    simp only [*, ok_bind, map_ok', ↓reduceIte, ne_eq, not_true_eq_false, not_false_eq_true,
+      Bool.false_eq_true, pure, Except.pure, decide_true, decide_false, false_and, and_false, and_true,
+      true_and, Classical.not_not, shiftEntry_indent])
+
+section leaf
+variable {L : DLines} {s s' : BState}
+
+theorem hr_sim (S : Sim L s s') {b : Bool} {t : BState} (h : hrRule s false = .ok (b, t)) :
+    ∃ t', hrRule s' false = .ok (b, t') ∧ Sim L t t' := by
+  unfold hrRule at h ⊢
+  rw [S.line, S.tbl.lineIndent, S.tbl.getLine, S.tbl.getMap]
+  crack h
+  all_goals (try subst_vars)
+  all_goals replay_goal
+  all_goals (first | exact ⟨_, rfl, S⟩ | (refine ⟨_, rfl, ?_⟩; sim_close S))
+
+theorem liftL_ok {α : Type} {x : Except Lines.Panic α} {a : α} (h : liftL x = .ok a) : x = .ok a := by
+  cases x with
+  | error e => cases e <;> simp [liftL] at h
+  | ok v => simp [liftL] at h; rw [h]
+
+/-- the entry of an existing line, with its text -/
+theorem Tbl.entry_of_off (T : Tbl L s s') {n : Nat} {o : LineOffset} (h : s.off n = .ok o) :
+    EntryOk L n o := T.q.ok n o (off_ok h)
+
+theorem getLine_len {n : Nat} {o : LineOffset} {line : List Char} (ho : s.off n = .ok o)
+    (hl : s.getLine n = .ok line) : o.lineEnd = o.firstNonspace + Lines.byteLen line := by
+  have ho' := off_ok ho
+  simp only [BState.getLine, Lines.getLine, ho'] at hl
+  obtain ⟨p, q, _, hp, hq⟩ := Lines.slice_eq_ok_iff.mp (liftL_ok hl)
+  omega
+
+theorem heading_sim (S : Sim L s s') {b : Bool} {t : BState} (h : headingRule s false = .ok (b, t)) :
+    ∃ t', headingRule s' false = .ok (b, t') ∧ Sim L t t' := by
+  unfold headingRule at h ⊢
+  rw [S.line, S.tbl.lineIndent, S.tbl.getLine, S.tbl.getMap, S.tbl.off]
+  crack h
+  all_goals (try subst_vars)
+  all_goals replay_goal
+  all_goals (try (exact ⟨_, rfl, S⟩))
+  -- the mapping of the inline root
+  rename_i ind hind _ line hline _ _ level tp rest hatx content hsl o hoff r hmap
+  obtain ⟨p, q, hdec, hp, hq⟩ := Lines.slice_eq_ok_iff.mp (liftL_ok hsl)
+  have hlen := getLine_len hoff hline
+  have eo := S.tbl.entry_of_off hoff
+  have hb := entry_bounds eo
+  have htp : tp ≤ Lines.byteLen line := by
+    have := congrArg Lines.byteLen hdec
+    simp only [Lines.byteLen_append] at this; omega
+  have hsig : sigma L (o.firstNonspace + tp) = o.firstNonspace + 2 * s.line + 2 + tp := by
+    rw [sigma_of_entry S.tbl.lines eo (by omega) (by omega)]; omega
+  refine ⟨_, rfl, ?_⟩
+  sim_close S
+  simp [shiftEntry, hsig]
+
+theorem codeScan_congr (h1 : s'.lineMax = s.lineMax) (h2 : ∀ n, s'.isEmpty n = s.isEmpty n)
+    (h3 : ∀ n, s'.lineIndent n = s.lineIndent n) :
+    ∀ (d n last : Nat), s.lineMax - n = d → codeScan s' n last = codeScan s n last := by
+  intro d
+  induction d with
+  | zero =>
+    intro n last hd
+    conv => lhs; rw [codeScan]
+    conv => rhs; rw [codeScan]
+    rw [h1, if_neg (show ¬ n < s.lineMax by omega), if_neg (show ¬ n < s.lineMax by omega)]
+  | succ d ih =>
+    intro n last hd
+    conv => lhs; rw [codeScan]
+    conv => rhs; rw [codeScan]
+    rw [h1, if_pos (show n < s.lineMax by omega), if_pos (show n < s.lineMax by omega), h2, h3]
+    split
+    · exact ih _ _ (by omega)
+    · cases s.lineIndent n with
+      | error e => rfl
+      | ok ind =>
+        simp only []
+        split
+        · exact ih _ _ (by omega)
+        · rfl
+
+theorem Sim.setLine (S : Sim L s s') (l : Nat) : Sim L { s with line := l } { s' with line := l } :=
+  ⟨S.tbl.of_eq rfl rfl rfl rfl rfl rfl, rfl, S.lineMax, S.tight, S.listIndent, S.level, S.nodeKind,
+   S.children, S.refs⟩
+
+theorem code_sim (S : Sim L s s') {b : Bool} {t : BState} (h : codeRule s false = .ok (b, t)) :
+    ∃ t', codeRule s' false = .ok (b, t') ∧ Sim L t t' := by
+  unfold codeRule at h ⊢
+  rw [S.line, S.tbl.lineIndent,
+    codeScan_congr S.lineMax S.tbl.isEmpty S.tbl.lineIndent _ _ _ rfl]
+  crack h
+  all_goals (try subst_vars)
+  · replay_goal
+    exact ⟨_, rfl, S⟩
+  · rename_i ind hind _ last hscan gl hgl _ m0 tl hmap l1 hl1 o hoff hassert
+    have T2 := (S.setLine last).tbl
+    have hgl' := T2.getLines s.line last (4 + s.blkIndent) false (S.tbl.indent_ok 4 (by omega))
+    have hoff' := T2.off l1
+    have e4 : 4 + s'.blkIndent = 4 + s.blkIndent := by rw [S.tbl.blk]
+    simp only [e4]
+    replay_goal
+    simp only [hgl', hgl, map_ok', mapSigma, hmap, List.map_cons, hoff', hoff, ok_bind]
+    -- the debug assertion
+    have eo := T2.entry_of_off hoff
+    have hle : sigma L o.lineEnd = (shiftEntry l1 o).lineEnd := by
+      rw [sigma_of_entry S.tbl.lines eo (by have := entry_bounds eo; omega) (Nat.le_refl _)]
+      simp [shiftEntry]
+    have hmono := sigma_mono L (show m0.2 ≤ o.lineEnd by omega)
+    rw [hle] at hmono
+    rw [if_neg (by omega)]
+    refine ⟨_, rfl, ?_⟩
+    sim_close S
+    rw [← hle]
+
+theorem fenceScan_congr (h1 : s'.lineMax = s.lineMax) (h2 : ∀ n, s'.getLine n = s.getLine n)
+    (h3 : ∀ n, s'.lineIndent n = s.lineIndent n) (marker : Char) (len : Nat) :
+    ∀ (d n : Nat), s.lineMax - n = d → fenceScan s' marker len n = fenceScan s marker len n := by
+  intro d
+  induction d with
+  | zero =>
+    intro n hd
+    conv => lhs; rw [fenceScan]
+    conv => rhs; rw [fenceScan]
+    rw [h1, if_pos (show n + 1 ≥ s.lineMax by omega), if_pos (show n + 1 ≥ s.lineMax by omega)]
+  | succ d ih =>
+    intro n hd
+    conv => lhs; rw [fenceScan]
+    conv => rhs; rw [fenceScan]
+    rw [h1, h2, h3]
+    split
+    · rfl
+    · have hrec := ih (n + 1) (by omega)
+      rw [hrec]
+
+theorem entry_le_size {i : Nat} {o : LineOffset} (h : EntryOk L i o) :
+    o.lineEnd ≤ Lines.byteLen (Lines.flat L) ∧ o.indentNonspace ≤ (Lines.byteLen (Lines.flat L) : Int) := by
+  obtain ⟨l, t, a, b, hi, hl, hs, hf, he, hind⟩ := h
+  have hlt : i < L.length := (List.getElem?_eq_some_iff.mp hi).1
+  have hLi : L[i] = (l, t) := (List.getElem?_eq_some_iff.mp hi).2
+  have := congrArg Lines.byteLen (flat_split L i hlt)
+  rw [hLi, hl] at this
+  simp only [Lines.byteLen_append] at this
+  have h2 := Lines.length_le_byteLen a
+  unfold startOf at hs he
+  constructor <;> omega
+
+theorem fence_sim (S : Sim L s s') (hi : IndentOk s) {b : Bool} {t : BState}
+    (h : fenceRule s false = .ok (b, t)) : ∃ t', fenceRule s' false = .ok (b, t') ∧ Sim L t t' := by
+  unfold fenceRule at h ⊢
+  simp only [S.line, S.tbl.lineIndent, S.tbl.getLine, S.tbl.off,
+    fenceScan_congr S.lineMax S.tbl.getLine S.tbl.lineIndent _ _ _ _ rfl, S.tbl.getMap]
+  crack h
+  all_goals (try subst_vars)
+  all_goals (try (replay_goal; exact ⟨_, rfl, S⟩))
+  all_goals (try (rcases ‹(_ : Char) = '`' ∧ _› with ⟨rfl, _⟩))
+  all_goals (try (replay_goal; exact ⟨_, rfl, S⟩))
+  rename_i ind hind _ _ marker rest hline _ _ params hparams _ scan hscan o hoff gl hgl e he r hr
+  obtain ⟨i, hi1, hi0⟩ := hi
+  have hoi := lineIndent_of_off (off_ok hoff)
+  rw [hi1] at hoi
+  have hon : 0 ≤ o.indentNonspace := by
+    simp only [Except.ok.injEq] at hoi; omega
+  have eo := S.tbl.entry_of_off hoff
+  have hsz := entry_le_size eo
+  have hsize := S.tbl.lines.size
+  have hcast : 0 ≤ Lines.usizeAsI32 (i32AsUsize o.indentNonspace) := by
+    simp only [i32AsUsize, hon, ge_iff_le, if_true]
+    rw [usizeAsI32_small (by omega)]; omega
+  have hgl' := S.tbl.getLines (s.line + 1) scan.1 (i32AsUsize o.indentNonspace) true hcast
+  replay_goal
+  refine ⟨_, rfl, ?_⟩
+  sim_close S
+
+theorem Sim.sameLook (S : Sim L s s') : SameLook s s' := by
+  refine ⟨by rw [S.line, S.tbl.lineIndent], by rw [S.line, S.tbl.getLine], by rw [S.nodeKind], ?_⟩
+  unfold listSpecial
+  rw [S.listIndent, S.line, S.tbl.off, S.tbl.blk]
+  cases s.listIndent with
+  | none => rfl
+  | some li =>
+    simp only []
+    cases s.off s.line with
+    | error e => rfl
+    | ok o => rfl
+
+/-- the two look-aheads: pure, and with the same verdict on related states -/
+structure TestSim (L : DLines) (test test' : Test) : Prop where
+  pure : TestPure test
+  pure' : TestPure test'
+  same : ∀ s s', Sim L s s' → verdict (test' s') = verdict (test s)
+
+theorem TestSim.transfer {test test' : Test} (TS : TestSim L test test') (S : Sim L s s')
+    {w : Bool × BState} (h : test s = .ok w) : w.2 = s ∧ test' s' = .ok (w.1, s') := by
+  have h1 := TS.pure _ _ h
+  have h2 := TS.same _ _ S
+  rw [h] at h2
+  cases h3 : test' s' with
+  | error e => rw [h3] at h2; simp [verdict, Except.map] at h2
+  | ok w' =>
+    have h4 := TS.pure' _ _ h3
+    rw [h3] at h2
+    simp [verdict, Except.map] at h2
+    refine ⟨h1, ?_⟩
+    rw [← h2, ← h4]
+
+theorem setextCheck_congr (S : Sim L s s') (setext : Bool) (ind : Int) (n : Nat) :
+    setextCheck setext s' ind n = setextCheck setext s ind n := by
+  unfold setextCheck
+  rw [S.tbl.getLine]
+
+theorem set_line_back' (s' : BState) (n l : Nat) (h : l = s'.line) :
+    ({ ({ s' with line := n } : BState) with line := l } : BState) = s' := by
+  subst h; exact set_line_back s' n
+
+theorem lazyScan_sim {test test' : Test} (TS : TestSim L test test') (setext : Bool) :
+    ∀ (fuel : Nat) (s s' : BState) (n : Nat) (r : Nat × Nat × BState), Sim L s s' →
+      lazyScan test setext fuel s n = .ok r → lazyScan test' setext fuel s' n = .ok (r.1, r.2.1, s') := by
+  intro fuel
+  induction fuel with
+  | zero => intro s s' n r _ h; simp [lazyScan] at h
+  | succ f ih =>
+    intro s s' n r S h
+    simp only [lazyScan] at h ⊢
+    simp only [S.lineMax, S.tbl.isEmpty, S.tbl.lineIndent, setextCheck_congr S, S.tbl.off, S.line]
+    crack h
+    all_goals (try subst_vars)
+    · replay_goal
+    · replay_goal
+      exact ih _ _ _ _ S h
+    · replay_goal
+    · replay_goal
+      exact ih _ _ _ _ S h
+    · obtain ⟨h1, ht⟩ := TS.transfer (S.setLine (n + 1)) ‹test _ = _›
+      have hb := set_line_back' s' (n + 1) s.line S.line.symm
+      simp only [S.lineMax] at ht hb
+      replay_goal
+    · obtain ⟨h1, ht⟩ := TS.transfer (S.setLine (n + 1)) ‹test _ = _›
+      have hb := set_line_back' s' (n + 1) s.line S.line.symm
+      simp only [S.lineMax] at ht hb
+      replay_goal
+      simp only [h1, set_line_back] at h
+      exact ih _ _ _ _ S h
+
+theorem Tbl.indent_ok0 (T : Tbl L s s') : 0 ≤ Lines.usizeAsI32 s.blkIndent := by
+  have := T.indent_ok 0 (by omega)
+  simpa using this
+
+theorem paragraph_sim {test test' : Test} (TS : TestSim L test test') {fuel : Nat} (S : Sim L s s')
+    {b : Bool} {t : BState} (h : paragraphRule test fuel s false = .ok (b, t)) :
+    ∃ t', paragraphRule test' fuel s' false = .ok (b, t') ∧ Sim L t t' := by
+  unfold paragraphRule at h ⊢
+  crack h
+  rename_i scan hscan gl hgl e he r hr hb
+  subst hb
+  have h1 := (lazyScan_spec TS.pure false _ _ _ _ hscan).1
+  have hscan' := lazyScan_sim TS false _ _ _ _ _ S hscan
+  rw [h1] at hgl hr
+  have T2 := (S.setLine scan.1).tbl
+  have hgl' := S.tbl.getLines s.line scan.1 s'.blkIndent false (by rw [S.tbl.blk]; exact S.tbl.indent_ok0)
+  conv at hgl' => rhs; rw [S.tbl.blk]
+  have hr' := T2.getMap s.line e
+  simp only [Bool.false_eq_true, if_false, S.line, hscan', ok_bind, hgl', hgl, map_ok', he, hr', hr,
+    pure, Except.pure, h1]
+  refine ⟨_, rfl, ?_⟩
+  sim_close S
+
+theorem lheading_sim {test test' : Test} (TS : TestSim L test test') {fuel : Nat} (S : Sim L s s')
+    {b : Bool} {t : BState} (h : lheadingRule test fuel s false = .ok (b, t)) :
+    ∃ t', lheadingRule test' fuel s' false = .ok (b, t') ∧ Sim L t t' := by
+  unfold lheadingRule at h ⊢
+  simp only [S.line, S.tbl.lineIndent]
+  crack h
+  all_goals (try subst_vars)
+  · replay_goal
+    exact ⟨_, rfl, S⟩
+  · have hscan := ‹lazyScan _ _ _ _ _ = _›
+    have h1 := (lazyScan_spec TS.pure true _ _ _ _ hscan).1
+    have hscan' := lazyScan_sim TS true _ _ _ _ _ S hscan
+    replay_goal
+    try simp only [h1]
+    exact ⟨_, rfl, S⟩
+  · rename_i ind hind _ scan hscan hlvl gl hgl e he r hr
+    have h1 := (lazyScan_spec TS.pure true _ _ _ _ hscan).1
+    have hscan' := lazyScan_sim TS true _ _ _ _ _ S hscan
+    rw [h1] at hgl hr
+    have T2 := (S.setLine (scan.1 + 1)).tbl
+    have hgl' := S.tbl.getLines s.line scan.1 s'.blkIndent false (by rw [S.tbl.blk]; exact S.tbl.indent_ok0)
+    conv at hgl' => rhs; rw [S.tbl.blk]
+    have hr' := T2.getMap s.line e
+    replay_goal
+    try simp only [h1]
+    refine ⟨_, rfl, ?_⟩
+    sim_close S
+
+theorem reference_sim {cfg cfg' : Cfg} (hc : cfg'.lookup = cfg.lookup ∧ cfg'.L = cfg.L ∧ cfg'.U = cfg.U)
+    {test test' : Test} (TS : TestSim L test test') {fuel : Nat} (S : Sim L s s')
+    {b : Bool} {t : BState} (h : referenceRule cfg test fuel s false = .ok (b, t)) :
+    ∃ t', referenceRule cfg' test' fuel s' false = .ok (b, t') ∧ Sim L t t' := by
+  have hparse : ∀ str, refParse cfg' str = refParse cfg str := by
+    intro str
+    simp only [refParse, refTitle, hc.1]
+  unfold referenceRule at h ⊢
+  simp only [S.line, S.tbl.lineIndent, S.tbl.getLine, hparse, hc.2.1, hc.2.2]
+  crack h
+  all_goals (try subst_vars)
+  all_goals (try (replay_goal; exact ⟨_, rfl, S⟩))
+  all_goals (
+    have hscan := ‹lazyScan _ _ _ _ _ = _›
+    have hgl := ‹BState.getLines _ _ _ _ _ = _›
+    have h1 := (lazyScan_spec TS.pure false _ _ _ _ hscan).1
+    have hscan' := lazyScan_sim TS false _ _ _ _ _ S hscan
+    rw [h1] at hgl
+    have hgl' := S.tbl.getLines s.line ‹Nat × Nat × BState›.1 s'.blkIndent false
+      (by rw [S.tbl.blk]; exact S.tbl.indent_ok0)
+    conv at hgl' => rhs; rw [S.tbl.blk]
+    replay_goal
+    try simp only [h1])
+  all_goals (first | exact ⟨_, rfl, S⟩ | (refine ⟨_, rfl, ?_⟩; sim_close S))
+
+end leaf
+
+/-! ### the containers' rewriting commutes with the prefix -/
+
+/-- `find_indent_of` behind a tab-free prefix -/
+theorem findIndent_prefix_tabfree (pre l : List Char) (hpre : '\t' ∉ pre) (hl : '\t' ∉ l) {r i f : Nat}
+    (h : Lines.findIndentOf l r = .ok (i, f)) :
+    Lines.findIndentOf (pre ++ l) (Lines.byteLen pre + r) = .ok (i, Lines.byteLen pre + f) ∧
+    ∃ p run rest, l = p ++ run ++ rest ∧ Lines.byteLen p = r ∧ Lines.byteLen (p ++ run) = f ∧
+      i = run.length ∧ AllBlank run := by
+  have hb := (Lines.find_indent_total l r).mp ⟨_, h⟩
+  obtain ⟨p, t, rfl, rfl⟩ := Lines.onBoundary_iff.mp hb
+  obtain ⟨run, rest, rfl, hrun, hrest⟩ := Lines.blank_run_split t
+  have htp : '\t' ∉ p := fun hc => hl (by simp [hc])
+  have htr : '\t' ∉ run := fun hc => hl (by simp [hc])
+  have hspec := Lines.find_indent_spec p run rest hrun hrest
+  rw [← List.append_assoc] at h
+  rw [hspec] at h
+  simp only [Except.ok.injEq, Prod.mk.injEq] at h
+  obtain ⟨rfl, rfl⟩ := h
+  have hspec' := Lines.find_indent_spec (pre ++ p) run rest hrun hrest
+  have e1 : Lines.indentWidth (p ++ run) - Lines.indentWidth p = run.length := by
+    rw [indentWidth_tabfree _ (by simp [htp, htr]), indentWidth_tabfree _ htp]; simp
+  have e2 : Lines.indentWidth (pre ++ p ++ run) - Lines.indentWidth (pre ++ p) = run.length := by
+    rw [indentWidth_tabfree _ (by simp [hpre, htp, htr]), indentWidth_tabfree _ (by simp [hpre, htp])]; simp; omega
+  refine ⟨?_, p, run, rest, by simp, rfl, by simp [hrun.byteLen], e1, hrun⟩
+  rw [e1]
+  rw [e2] at hspec'
+  have : pre ++ (p ++ (run ++ rest)) = pre ++ p ++ run ++ rest := by simp
+  rw [this, show Lines.byteLen pre + Lines.byteLen p = Lines.byteLen (pre ++ p) by simp, hspec']
+  simp [Nat.add_assoc]
+
+section rewrite
+variable {L : DLines}
+
+theorem shiftEntry_with (i : Nat) (o : LineOffset) (x : Int) (f : Nat) :
+    shiftEntry i { o with indentNonspace := x, firstNonspace := f } =
+      { shiftEntry i o with indentNonspace := x, firstNonspace := f + 2 * i + 2 } := rfl
+
+theorem EntryOk.indent {i : Nat} {o : LineOffset} (h : EntryOk L i o) {x : Int} (hx : x ≤ o.indentNonspace) :
+    EntryOk L i { o with indentNonspace := x } := by
+  obtain ⟨l, t, a, b, hi, hl, hs, hf, he, hind⟩ := h
+  exact ⟨l, t, a, b, hi, hl, hs, hf, he, by simp only; omega⟩
+
+/-- the line behind entry `i`, from either source -/
+theorem entry_line (hL : LinesOk L) {i : Nat} {o : LineOffset} (h : EntryOk L i o) :
+    ∃ l, (∃ t, L[i]? = some (l, t)) ∧ '\t' ∉ l ∧
+      Lines.slice (Lines.flat L) o.lineStart o.lineEnd = .ok l ∧
+      Lines.slice (Lines.flat (prefixLines L)) (shiftEntry i o).lineStart (shiftEntry i o).lineEnd
+        = .ok ('>' :: ' ' :: l) := by
+  obtain ⟨l, t, a, b, hi, hl, hs, hf, he, _⟩ := h
+  have hlt : i < L.length := (List.getElem?_eq_some_iff.mp hi).1
+  have hLi : L[i] = (l, t) := (List.getElem?_eq_some_iff.mp hi).2
+  have hlt' : i < (prefixLines L).length := by rw [prefixLines_length]; exact hlt
+  refine ⟨l, ⟨t, hi⟩, ?_, ?_, ?_⟩
+  · exact hL.tabfree (l, t) (by rw [← hLi]; exact List.getElem_mem hlt)
+  · have := slice_in_line L i hlt [] l [] (by rw [hLi]; simp)
+    simp only [Lines.byteLen_nil, Nat.add_zero] at this
+    have hbl : Lines.byteLen l = Lines.byteLen a + Lines.byteLen b := by rw [hl]; simp
+    rw [hs, he, show startOf L i + Lines.byteLen a + Lines.byteLen b = startOf L i + Lines.byteLen l by omega]
+    exact this
+  · have := slice_in_line (prefixLines L) i hlt' [] ('>' :: ' ' :: l) [] (by simp [prefixLines, hLi])
+    simp only [Lines.byteLen_nil, Nat.add_zero] at this
+    rw [startOf_prefix L i (by omega), byteLen_gt_sp] at this
+    have hbl : Lines.byteLen l = Lines.byteLen a + Lines.byteLen b := by rw [hl]; simp
+    simp only [shiftEntry, hs, he]
+    rw [show startOf L i + Lines.byteLen a + Lines.byteLen b + 2 * i + 2
+        = startOf L i + 2 * i + (2 + Lines.byteLen l) by omega]
+    exact this
+end rewrite
+
+@[simp] theorem liftL_ok' {α : Type} (a : α) : liftL (.ok a : Except Lines.Panic α) = .ok a := rfl
+
+theorem psub_eq {a b : Nat} (h : b ≤ a) : psub a b = .ok (a - b) := by simp [psub, h]
+
+section bq
+variable {L : DLines}
+
+theorem bqRewrite_sim (hL : LinesOk L) {i : Nat} {o o₂ : LineOffset} {rest : List Char} {le : Bool}
+    (eo : EntryOk L i o) (h : bqRewrite (Lines.flat L) o rest = .ok (o₂, le)) :
+    bqRewrite (Lines.flat (prefixLines L)) (shiftEntry i o) rest = .ok (shiftEntry i o₂, le) ∧ EntryOk L i o₂ := by
+  obtain ⟨l, ⟨t, hLi⟩, htab, hsl, hsl'⟩ := entry_line hL eo
+  obtain ⟨l0, t0, a, b, hi, hl, hs, hf, he, hind⟩ := eo
+  rw [hLi] at hi
+  simp only [Option.some.injEq, Prod.mk.injEq] at hi
+  obtain ⟨rfl, rfl⟩ := hi
+  unfold bqRewrite at h ⊢
+  simp only [hsl, hsl', liftL_ok', ok_bind] at h ⊢
+  crack h
+  rename_i rel hrel fi hfi lineLen hlen ind2 hopt ho2
+  obtain ⟨hr1, rfl⟩ := psub_ok hrel
+  obtain ⟨hr2, rfl⟩ := psub_ok hlen
+  have hfi' := liftL_ok hfi
+  obtain ⟨ind, fn⟩ := fi
+  obtain ⟨hpre, p, run, rest2, hdec, hp, hpr, hir, hrun⟩ :=
+    findIndent_prefix_tabfree ['>', ' '] l (by decide) htab hfi'
+  simp only [show Lines.byteLen ['>', ' '] = 2 by decide, List.cons_append, List.nil_append] at hpre
+  -- the primed run
+  have hrel' : psub ((shiftEntry i o).firstNonspace + 1) (shiftEntry i o).lineStart
+      = .ok (2 + (o.firstNonspace + 1 - o.lineStart)) := by
+    rw [psub_eq (by simp only [shiftEntry]; omega)]
+    congr 1; simp only [shiftEntry]; omega
+  have hlen' : psub (shiftEntry i o).lineEnd (shiftEntry i o).lineStart = .ok (o.lineEnd - o.lineStart + 2) := by
+    rw [psub_eq (by simp only [shiftEntry]; omega)]
+    congr 1; simp only [shiftEntry]; omega
+  simp only [hrel', hpre, liftL_ok', hlen', ok_bind, hopt, pure, Except.pure]
+  subst ho2
+  refine ⟨?_, ?_⟩
+  · simp only [Except.ok.injEq, Prod.mk.injEq]
+    refine ⟨?_, ?_⟩
+    · simp only [shiftEntry]
+      congr 1 <;> omega
+    · apply Bool.eq_iff_iff.mpr
+      simp only [beq_iff_eq]
+      omega
+  · -- the new cut
+    refine ⟨l, t, p ++ run, rest2, hLi, by rw [hdec], hs, ?_, ?_, ?_⟩
+    · simp only; rw [hpr]; omega
+    · simp only
+      have := congrArg Lines.byteLen hdec
+      simp only [Lines.byteLen_append] at this hpr ⊢
+      have hbl : Lines.byteLen l = Lines.byteLen a + Lines.byteLen b := by rw [hl]; simp
+      omega
+    · simp only
+      have : (ind2 : Int) ≤ (ind : Int) := by
+        unfold bqOptSpace at hopt
+        split at hopt
+        · split at hopt
+          · have := (psub_ok hopt).2; omega
+          · simp [pure, Except.pure] at hopt; omega
+        · simp [pure, Except.pure] at hopt; omega
+      simp only [List.length_append]
+      omega
+
+theorem EntryOk.indent_neg {i : Nat} {o : LineOffset} (h : EntryOk L i o) {x : Int} (hx : x ≤ 0) :
+    EntryOk L i { o with indentNonspace := x } := by
+  obtain ⟨l, t, a, b, hi, hl, hs, hf, he, hind⟩ := h
+  exact ⟨l, t, a, b, hi, hl, hs, hf, he, by simp only; omega⟩
+
+theorem Sim.setOff {s s' s₂ : BState} (S : Sim L s s') {m : Nat} {o₂ : LineOffset}
+    (h : s.setOff m o₂ = .ok s₂) (eo : EntryOk L m o₂) :
+    ∃ s₂', s'.setOff m (shiftEntry m o₂) = .ok s₂' ∧ Sim L s₂ s₂' := by
+  obtain ⟨hm, rfl⟩ := setOff_ok h
+  have hm' : m < s'.offs.length := by rw [S.tbl.q.len', ← S.tbl.q.len]; exact hm
+  refine ⟨{ s' with offs := s'.offs.set m (shiftEntry m o₂) }, by simp [BState.setOff, hm'], ?_⟩
+  refine ⟨⟨S.tbl.lines, S.tbl.src, S.tbl.src', ⟨by simp [S.tbl.q.len], ?_, ?_⟩, S.tbl.blk, S.tbl.small⟩,
+    S.line, S.lineMax, S.tight, S.listIndent, S.level, S.nodeKind, S.children, S.refs⟩
+  · intro i o ho
+    simp only [List.getElem?_set] at ho
+    split at ho
+    · simp [hm] at ho; subst ho; rename_i h; subst h; exact eo
+    · exact S.tbl.q.ok i o ho
+  · intro i
+    simp only [List.getElem?_set]
+    split
+    · rename_i h; subst h; simp [hm, hm']
+    · exact S.tbl.q.shift i
+
+theorem bqScan_sim {test test' : Test} (TS : TestSim L test test') :
+    ∀ (fuel : Nat) (s s' : BState) (m : Nat) (old old' : List LineOffset) (le : Bool)
+      (r : Nat × List LineOffset × BState), Sim L s s' → bqScan test fuel s m old le = .ok r →
+      ∃ old₂' S', bqScan test' fuel s' m old' le = .ok (r.1, old₂', S') ∧ Sim L r.2.2 S' := by
+  intro fuel
+  induction fuel with
+  | zero => intro s s' m old old' le r _ h; simp [bqScan] at h
+  | succ f ih =>
+    intro s s' m old old' le r S h
+    simp only [bqScan] at h ⊢
+    simp only [S.lineMax, S.tbl.lineIndent, S.tbl.getLine, S.tbl.off, S.tbl.src']
+    crack h
+    all_goals (try subst_vars)
+    · replay_goal
+      exact ⟨_, _, rfl, S⟩
+    · replay_goal
+      exact ⟨_, _, rfl, S⟩
+    · -- inside the quote
+      rename_i ind hind line c rest hline hc o hoff rw hrw s₂ hset
+      obtain ⟨o₂, le₂⟩ := rw
+      rw [S.tbl.src] at hrw
+      obtain ⟨hrw', eo₂⟩ := bqRewrite_sim S.tbl.lines (S.tbl.entry_of_off hoff) hrw
+      obtain ⟨s₂', hset', S₂⟩ := S.setOff hset eo₂
+      replay_goal
+      exact ih _ _ _ _ _ _ _ S₂ h
+    · replay_goal
+      exact ⟨_, _, rfl, S⟩
+    · -- a terminating rule, `blk_indent ≠ 0`
+      obtain ⟨h1, ht⟩ := TS.transfer (S.setLine m) ‹test _ = _›
+      simp only [S.lineMax, S.tbl.src'] at ht
+      rename_i w hw _ hb o hoff s₂ hset
+      rw [h1] at hoff hset
+      have Sm := S.setLine m
+      have hoff' := Sm.tbl.off m
+      rw [hoff] at hoff'
+      obtain ⟨s₂', hset', S₂⟩ := Sm.setOff hset ((Sm.tbl.entry_of_off hoff).indent (by simp only; omega))
+      simp only [S.lineMax, S.tbl.src'] at hoff' hset'
+      have hblk : w.2.blkIndent ≠ 0 := hb
+      rw [h1] at hblk
+      have hblk' : s'.blkIndent ≠ 0 := by rw [S.tbl.blk]; exact hblk
+      have ecast : ((s'.blkIndent : Nat) : Int) = (s.blkIndent : Int) := by rw [S.tbl.blk]
+      replay_goal
+      try simp only [hoff', map_ok', ok_bind, ecast]
+      simp only [shiftEntry] at hset' ⊢
+      simp only [hset', ok_bind]
+      exact ⟨_, _, rfl, S₂⟩
+    · obtain ⟨h1, ht⟩ := TS.transfer (S.setLine m) ‹test _ = _›
+      simp only [S.lineMax, S.tbl.src'] at ht
+      have hblk : ¬ (‹Bool × BState›.2.blkIndent ≠ 0) := ‹_›
+      rw [h1] at hblk
+      have hblk' : ¬ (s'.blkIndent ≠ 0) := by rw [S.tbl.blk]; exact hblk
+      replay_goal
+      refine ⟨_, _, rfl, ?_⟩
+      have := S.setLine m
+      simp only [S.lineMax, S.tbl.src'] at this
+      exact this
+    · obtain ⟨h1, ht⟩ := TS.transfer (S.setLine m) ‹test _ = _›
+      simp only [S.lineMax, S.tbl.src'] at ht
+      rename_i w hw _ o hoff s₂ hset
+      have hle : le = false := by simpa using ‹¬le = true›
+      subst hle
+      rw [h1] at hoff hset
+      have Sm := S.setLine m
+      have hoff' := Sm.tbl.off m
+      rw [hoff] at hoff'
+      obtain ⟨s₂', hset', S₂⟩ := Sm.setOff hset ((Sm.tbl.entry_of_off hoff).indent_neg (x := -1) (by omega))
+      simp only [S.lineMax, S.tbl.src'] at hoff' hset'
+      replay_goal
+      try simp only [hoff', map_ok', ok_bind]
+      simp only [shiftEntry] at hset' ⊢
+      simp only [hset', ok_bind]
+      exact ih _ _ _ _ _ _ _ S₂ h
+
+/-- the nested tokenizers correspond -/
+def TokSim (L : DLines) (tok tok' : Tok) : Prop :=
+  ∀ s s' t, Sim L s s' → tok s = .ok t → ∃ t', tok' s' = .ok t' ∧ Sim L t t'
+
+/-- the state the block-quote rule hands to the nested tokenizer -/
+abbrev nestBq (S1 : BState) (line n : Nat) : BState :=
+  { S1 with blkIndent := 0, nodeKind := .blockquote, children := [], line := line, lineMax := n, level := S1.level + 1 }
+
+/-- the state the block-quote rule reads its range from -/
+abbrev finBq (s2 S1 : BState) (offs : List LineOffset) : BState :=
+  { s2 with level := s2.level - 1, lineMax := S1.lineMax, offs := offs, blkIndent := S1.blkIndent }
+
+theorem blockquote_sim {tok tok' : Tok} {test test' : Test} (hk : TokSpec tok) (hk' : TokSpec tok')
+    (TK : TokSim L tok tok') (TS : TestSim L test test') {fuel : Nat} {s s' : BState} (S : Sim L s s')
+    {b : Bool} {t : BState} (h : blockquoteRule tok test fuel s false = .ok (b, t)) :
+    ∃ t', blockquoteRule tok' test' fuel s' false = .ok (b, t') ∧ Sim L t t' := by
+  unfold blockquoteRule at h ⊢
+  simp only [S.line, S.tbl.lineIndent, S.tbl.getLine]
+  crack h
+  all_goals (try subst_vars)
+  · replay_goal
+    exact ⟨_, rfl, S⟩
+  · replay_goal
+    exact ⟨_, rfl, S⟩
+  · rename_i ind hind _ line hline hhead scan hscan s2 htok lvl hlvl offs hoffs e he r hr
+    obtain ⟨n, old, S1⟩ := scan
+    -- the scans
+    obtain ⟨old', S1', hscan', SS1⟩ := bqScan_sim TS _ _ _ _ _ [] _ _ S hscan
+    obtain ⟨hsb, hmn, _, _, _, add, hadd, hrest⟩ := bqScan_spec TS.pure _ _ _ _ _ _ _ _ hscan
+    obtain ⟨hsb', _, _, _, _, add', hadd', hrest'⟩ := bqScan_spec TS.pure' _ _ _ _ _ _ _ _ hscan'
+    simp only [List.nil_append] at hadd hadd'
+    rw [← hadd] at hrest
+    rw [← hadd'] at hrest'
+    clear hadd hadd'
+    simp only at htok hlvl hoffs he hr SS1
+    -- the nested tokenizers
+    have S1s : Sim L (nestBq S1 s.line n) (nestBq S1' s.line n) :=
+      ⟨⟨SS1.tbl.lines, SS1.tbl.src, SS1.tbl.src', SS1.tbl.q, rfl, Nat.zero_le _⟩, rfl, rfl, SS1.tight,
+        SS1.listIndent, by simp [SS1.level], rfl, rfl, SS1.refs⟩
+    obtain ⟨s2', htok', S2⟩ := TK _ _ _ S1s htok
+    have hfr := hk.frame _ _ htok
+    have hfr' := hk'.frame _ _ htok'
+    -- the tables are restored
+    rw [hfr.offs] at hoffs
+    try simp only at hoffs
+    rw [hrest] at hoffs
+    cases hoffs
+    have hoffs' : restoreOffs s2'.offs s.line old' = .ok s'.offs := by
+      rw [hfr'.offs]; exact hrest'
+    obtain ⟨hl1, rfl⟩ := psub_ok hlvl
+    have hlvl' : psub s2'.level 1 = .ok (s2'.level - 1) := psub_eq (by rw [S2.level]; omega)
+    have he' : psub s2'.line 1 = .ok e := by rw [S2.line]; exact he
+    -- the final states
+    have Tfin : Tbl L (finBq s2 S1 s.offs) (finBq s2' S1' s'.offs) :=
+      S.tbl.of_eq (by simp [hfr.src, hsb.src]) rfl (by simp [hsb.blkIndent])
+        (by simp [hfr'.src, hsb'.src]) rfl (by simp [hsb'.blkIndent])
+    have hr' := Tfin.getMap s.line e
+    rw [hr] at hr'
+    replay_goal
+    refine ⟨_, rfl, ?_⟩
+    refine ⟨S.tbl.of_eq (by simp [hfr.src, hsb.src]) rfl (by simp [hsb.blkIndent])
+        (by simp [hfr'.src, hsb'.src]) rfl (by simp [hsb'.blkIndent]), ?_, ?_, ?_, ?_, ?_, ?_, ?_, ?_⟩
+    · simp [S2.line]
+    · simp [hsb.lineMax, hsb'.lineMax, S.lineMax]
+    · simp [S2.tight]
+    · simp [S2.listIndent]
+    · simp [S2.level]; omega
+    · simp [hsb.nodeKind, hsb'.nodeKind, S.nodeKind]
+    · simp [hsb.children, hsb'.children, S.children, relocNodes_append, relocNodes, relocNode, S2.children,
+        S2.nodeKind, hfr.nodeKind, relocKind, sigma2]
+    · simp [S2.refs]
+end bq
+
+
+
 /-
 OPEN: the whole-document congruence.
 
